@@ -27,6 +27,7 @@ pub struct PoolRun {
     pub collector: Addr,
     pub users: Vec<Addr>,
     pub ptype: PairType,
+    pub wrong_path: bool,
 }
 
 pub const USERS: [&str; 3] = ["user1", "user2", "user3"];
@@ -71,6 +72,7 @@ impl PoolRun {
             collector,
             users,
             ptype,
+            wrong_path: false,
         }
     }
 
@@ -205,6 +207,18 @@ impl PoolRun {
         let u = self.user(ui);
         let to_s = if to == ui { None } else { Some(self.users[to].to_string()) };
         let dpre = self.w.digest();
+        // `wrong_path`: a cw20 offer named in the DIRECT swap message (which is for native offers only), with a coin of the
+        // pair's other asset (or nothing) attached instead of the tokens: nothing is paid in, so it must be refused
+        if self.wrong_path {
+            self.wrong_path = false;
+            if let A::Cw20(_) = self.assets[dir].clone() {
+                let funds: Vec<Coin> = match self.assets[1 - dir].clone() { A::Native(dn) => vec![coin(1, dn)], _ => vec![] };
+                let r = self.w.exec(&u, &self.pair.clone(), &ExecuteMsg::Swap { offer_asset: self.assets[dir].asset(offer),
+                    belief_price: belief.map(dec_atomics), max_spread: max_spread.map(dec_atomics), to: to_s }, &funds);
+                let dpost = self.w.digest();
+                return (r, dpre, dpost);
+            }
+        }
         let r = match self.assets[dir].clone() {
             A::Native(dn) => self.w.exec(
                 &u,
@@ -448,12 +462,15 @@ pub fn run_random(rec: &mut Rec, seed: u64, run: u64, nops: usize, stable: bool)
                     }.max(1))
                 } else { None };
                 let to = if r.gen_bool(0.2) { r.gen_range(0..3usize) } else { ui };
+                // one swap in ten with a cw20 offer names it in the direct message instead of sending the tokens
+                let wrong = matches!(p.assets[dir], A::Cw20(_)) && r.gen_range(0..10) == 0;
+                p.wrong_path = wrong;
                 let (rs, dpre, dpost) = p.swap(ui, dir, offer, to, ms, belief);
                 let g = |k: &str| rs.attr("swap", k).unwrap_or("0".into());
                 ev.insert("ev".into(), json!("swap"));
                 ev.insert("actor".into(), json!(USERS[ui]));
                 ev.insert("args".into(), json!({"dir": dir + 1, "offer": s(offer), "to": USERS[to],
-                    "ms": opt_s(ms), "bp": opt_s(belief)}));
+                    "ms": opt_s(ms), "bp": opt_s(belief), "wrong_path": wrong}));
                 ev.insert("pre".into(), json!({"sim": sim}));
                 ev.insert("res".into(), json!(rs.tag()));
                 ev.insert("err".into(), jerr(&rs.err()));
